@@ -311,7 +311,7 @@ Lemma splith_step vs k c t c' D :
   (tph (gett c t) = PIdle -> qclosed (getq c 0) = true -> qtok (getq c 0) = 0 ->
      qpop (getq c 0) = vs) ->
   step c t = Some c' -> tph (gett c' t) <> PStuck ->
-  exists D', splith_ok vs k (gett c' t) (qpop (getq c' 0)) (qclosed (getq c' 0))
+  exists D', prefix D D' /\ splith_ok vs k (gett c' t) (qpop (getq c' 0)) (qclosed (getq c' 0))
                        (view_app c') (view_cl c') D'.
 Proof.
   intros Hk Hok Hq Hdrain Hstep Hns. pose proof (step_some_lt _ _ _ Hstep) as Ht.
@@ -322,9 +322,9 @@ Proof.
     rewrite Hph, Hc in Hstep.
   - (* HS_idle *)
     destruct (0 <? qtok (getq c 0)) eqn:Htok.
-    + injection Hstep as <-. exists D. gs. simpl.
+    + injection Hstep as <-. exists D. split; [apply prefix_refl|]. gs. simpl.
       apply HS_pop with cur; simpl; auto; intros j Hj; gs; auto.
-    + destruct (qclosed (getq c 0)) eqn:Hcl; [|discriminate]. injection Hstep as <-. exists D. gs.
+    + destruct (qclosed (getq c 0)) eqn:Hcl; [|discriminate]. injection Hstep as <-. exists D. split; [apply prefix_refl|]. gs.
       unfold finish_head. rewrite Hl. simpl. apply Nat.ltb_ge in Htok.
       apply HS_close with 0; simpl; auto; try lia.
       * unfold close_calls. now rewrite Nat.sub_0_r.
@@ -332,7 +332,7 @@ Proof.
   - (* HS_pop *)
     unfold pop_head in Hstep. destruct (qvals (getq c 0)) as [|x vals] eqn:Hv.
     + injection Hstep as <-. rewrite gett_sett_same in Hns by auto. simpl in Hns. congruence.
-    + injection Hstep as <-. exists D. gs. unfold finish_head. rewrite Hl. simpl.
+    + injection Hstep as <-. exists D. split; [apply prefix_refl|]. gs. unfold finish_head. rewrite Hl. simpl.
       assert (Hlt : cur < k) by (subst cur; apply Nat.mod_upper_bound; lia).
       rewrite nth_seq1 by auto. rewrite seq_length.
       apply HS_add with x cur (if S cur <? k then S cur else 0); simpl; auto.
@@ -342,7 +342,7 @@ Proof.
       * intros j Hj. gs. now apply Ha.
       * intros j Hj. gs. now apply Hop.
   - (* HS_add *)
-    injection Hstep as <-. exists (D ++ [v]). gs. simpl.
+    injection Hstep as <-. exists (D ++ [v]). split; [apply prefix_app_l|]. gs. simpl.
     assert (Hlt : cu < k) by (subst cu; apply Nat.mod_upper_bound; lia).
     apply HS_send with v cu cur; simpl; auto.
     + intros j Hj. rewrite rr_snoc. rewrite <- Hcu.
@@ -353,18 +353,18 @@ Proof.
   - (* HS_send *)
     rewrite (Hop (S cu)) in Hstep by lia.
     destruct (qtok (getq c (S cu)) <? qcap (getq c (S cu))); [|discriminate].
-    injection Hstep as <-. exists D. gs. simpl.
+    injection Hstep as <-. exists D. split; [apply prefix_refl|]. gs. simpl.
     apply HS_idle with cur; simpl; auto.
     + intros j Hj. destruct (Nat.eq_dec j (S cu)) as [->|Hn]; gs; simpl; apply Ha; lia.
     + intros j Hj. destruct (Nat.eq_dec j (S cu)) as [->|Hn]; gs; simpl; auto.
   - (* HS_close *)
     destruct (Nat.eq_dec m k) as [->|Hne].
     + unfold close_calls in Hstep. rewrite Nat.sub_diag in Hstep. simpl in Hstep.
-      injection Hstep as <-. exists D. gs.
+      injection Hstep as <-. exists D. split; [apply prefix_refl|]. gs.
       apply HS_done; simpl; auto. apply in_or_app; simpl; auto.
     + unfold close_calls in Hstep. rewrite seq_S_cons in Hstep by lia. simpl in Hstep.
       rewrite (Hc2 (S m)) in Hstep by lia.
-      injection Hstep as <-. exists D. gs. simpl.
+      injection Hstep as <-. exists D. split; [apply prefix_refl|]. gs. simpl.
       apply HS_close with (S m); simpl; auto; try lia.
       * intros j Hj. destruct (Nat.eq_dec j (S m)) as [->|Hn]; gs; simpl; apply Ha; lia.
       * intros j Hj. destruct (Nat.eq_dec j (S m)) as [->|Hn]; gs; simpl; auto. apply Hc1. lia.
@@ -464,7 +464,9 @@ Lemma joinh_step vs k c t c' F :
      qclosed (getq c (S cur)) = true -> qtok (getq c (S cur)) = 0 -> F = vs) ->
   step c t = Some c' -> tph (gett c' t) <> PStuck ->
   exists F', joinh_ok vs k (gett c' t) (view_pop c') (qapp (getq c' (S k)))
-                      (qclosed (getq c' (S k))) F'.
+                      (qclosed (getq c' (S k))) F' /\
+     (F' = F \/ exists x cur vals, F' = F ++ [x] /\ cur = length F mod k /\
+                  qvals (getq c (S cur)) = x :: vals).
 Proof.
   intros Hk Hok Hq Hdrain Hstep Hns. pose proof (step_some_lt _ _ _ Hstep) as Ht.
   unfold step in Hstep. unfold view_pop in *.
@@ -475,18 +477,18 @@ Proof.
   - (* HJ_idle *)
     assert (Hlt : cur < k) by (subst cur; apply Nat.mod_upper_bound; lia).
     destruct (0 <? qtok (getq c (S cur))) eqn:Htok.
-    + injection Hstep as <-. exists F. gs. simpl.
+    + injection Hstep as <-. exists F. split; [|now left]. gs. simpl.
       apply HJ_pop with cur; simpl; auto.
       intros j Hj. destruct (Nat.eq_dec j (S cur)) as [->|Hn]; gs; simpl; apply Hp; lia.
     + destruct (qclosed (getq c (S cur))) eqn:Hcl'; [|discriminate]. injection Hstep as <-.
-      exists F. gs. unfold finish_head. rewrite Hl. simpl. apply Nat.ltb_ge in Htok.
+      exists F. split; [|now left]. gs. unfold finish_head. rewrite Hl. simpl. apply Nat.ltb_ge in Htok.
       apply HJ_close; simpl; auto.
       apply Hdrain with cur; auto. lia.
   - (* HJ_pop *)
     assert (Hlt : cur < k) by (subst cur; apply Nat.mod_upper_bound; lia).
     unfold pop_head in Hstep. destruct (qvals (getq c (S cur))) as [|x vals] eqn:Hv.
     + injection Hstep as <-. rewrite gett_sett_same in Hns by auto. simpl in Hns. congruence.
-    + injection Hstep as <-. exists (F ++ [x]). gs. unfold finish_head. rewrite Hl. simpl.
+    + injection Hstep as <-. exists (F ++ [x]). split; [|right; exists x, cur, vals; auto]. gs. unfold finish_head. rewrite Hl. simpl.
       rewrite seq_length.
       assert (Hlt' : (if S cur <? k then S cur else 0) < k) by (destruct (Nat.ltb_spec (S cur) k); lia).
       rewrite nth_seq1 by auto.
@@ -498,19 +500,19 @@ Proof.
         -- rewrite Nat.eqb_refl. now rewrite Hp by lia.
         -- destruct (Nat.eqb_spec cur (pred j)); [lia|]. apply Hp. lia.
   - (* HJ_add *)
-    injection Hstep as <-. exists F. gs. simpl.
+    injection Hstep as <-. exists F. split; [|now left]. gs. simpl.
     apply HJ_send with v cur; simpl; auto.
     intros j Hj. gs. now apply Hp.
   - (* HJ_send *)
     rewrite Hcl in Hstep.
     destruct (qtok (getq c (S k)) <? qcap (getq c (S k))); [|discriminate].
-    injection Hstep as <-. exists F. gs. simpl.
+    injection Hstep as <-. exists F. split; [|now left]. gs. simpl.
     apply HJ_idle with cur; simpl; auto.
     intros j Hj. gs. now apply Hp.
   - (* HJ_close *)
-    rewrite Hcl in Hstep. injection Hstep as <-. exists F. gs. simpl.
+    rewrite Hcl in Hstep. injection Hstep as <-. exists F. split; [|now left]. gs. simpl.
     apply HJ_done1; simpl; auto. intros j Hj. gs. now apply Hp.
-  - injection Hstep as <-. exists F. gs. apply HJ_done; simpl; auto. apply in_or_app; simpl; auto.
+  - injection Hstep as <-. exists F. split; [|now left]. gs. apply HJ_done; simpl; auto. apply in_or_app; simpl; auto.
   - discriminate.
 Qed.
 
